@@ -80,7 +80,7 @@ class QScope:
 
 
 class Obligation:
-    __slots__ = ("name", "pc", "goal", "info", "verdict", "model", "secs", "backend", "path", "zmodel")
+    __slots__ = ("name", "pc", "goal", "info", "verdict", "model", "secs", "backend", "path", "zmodel", "hints")
 
     def __init__(self, name, pc, goal, info=None):
         self.name = name
@@ -93,6 +93,7 @@ class Obligation:
         self.backend = None
         self.path = None
         self.zmodel = None
+        self.hints = []
 
 
 class Ctx:
@@ -104,6 +105,7 @@ class Ctx:
         self.nforced = len(self.decisions)
         self.pos = 0
         self.pc = []
+        self.hyps = []            # assumptions only (without the assumed goals of earlier obligations): vacuity check
         self.obligations = []
         self.todo = None
         self.fmodel = fmodel
@@ -119,6 +121,7 @@ class Ctx:
         self.trace = []           # human readable decision trace
         self.named = {}           # name -> proxy (inputs and stub outputs), for replay
         self.axiom_keys = set()
+        self.size_hints = []      # Int consts that are lengths of symbolic sequences (used to look for small counter-models)
         self.qscopes = []         # [(bound var, [axioms emitted while evaluating a quantifier body])]
 
     # -- naming ---------------------------------------------------------------------------
@@ -141,6 +144,7 @@ class Ctx:
         if z3.is_true(t):
             return
         self.pc.append(t)
+        self.hyps.append(t)
         if not has_quant(t):
             self.solver.add(t)
 
@@ -162,6 +166,7 @@ class Ctx:
         g = self._guarded(tobool(goal))
         ob = Obligation(name, list(self.pc), g, info)
         ob.path = list(self.decisions[: self.pos])
+        ob.hints = list(self.size_hints)
         self.obligations.append(ob)
         # continue under the assumption that it holds (standard assert-then-assume)
         if not z3.is_true(g):
@@ -299,6 +304,7 @@ def is_sym(x):
 def vcx_and(*thunks):
     c = Ctx.cur
     acc = []
+    parts = []
     npush = 0
     try:
         v = True
@@ -312,6 +318,7 @@ def vcx_and(*thunks):
                     v = True
                     continue
                 acc.append(t)
+                parts.append(v)
                 if c is not None:
                     c.guards.append(t)
                     npush += 1
@@ -322,7 +329,13 @@ def vcx_and(*thunks):
             return v
         if not isinstance(v, (SB, bool)) and type(v).__name__ != "bool_":
             raise Unsupported(f"`and` of a symbolic bool with a non-boolean {type(v).__name__}")
-        return SB(z3.And(*acc) if len(acc) > 1 else acc[0])
+        if len(parts) == 1:
+            return parts[0]
+        hook = None
+        if any(p.on_true is not None for p in parts):
+            def hook(ctx, parts=parts):
+                return z3.And(*[(p.on_true(ctx) if p.on_true is not None else p.t) for p in parts])
+        return SB(z3.And(*acc), on_true=hook)
     finally:
         if c is not None and npush:
             del c.guards[-npush:]
@@ -331,6 +344,7 @@ def vcx_and(*thunks):
 def vcx_or(*thunks):
     c = Ctx.cur
     acc = []
+    parts = []
     npush = 0
     try:
         v = False
@@ -344,6 +358,7 @@ def vcx_or(*thunks):
                     v = False
                     continue
                 acc.append(t)
+                parts.append(v)
                 if c is not None:
                     c.guards.append(z3.Not(t))
                     npush += 1
@@ -353,7 +368,13 @@ def vcx_or(*thunks):
             return v
         if not isinstance(v, (SB, bool)) and type(v).__name__ != "bool_":
             raise Unsupported(f"`or` of a symbolic bool with a non-boolean {type(v).__name__}")
-        return SB(z3.Or(*acc) if len(acc) > 1 else acc[0])
+        if len(parts) == 1:
+            return parts[0]
+        hook = None
+        if any(p.on_false is not None for p in parts):
+            def hook(ctx, parts=parts):
+                return z3.And(*[(p.on_false(ctx) if p.on_false is not None else z3.Not(p.t)) for p in parts])
+        return SB(z3.Or(*acc), on_false=hook)
     finally:
         if c is not None and npush:
             del c.guards[-npush:]
